@@ -8,48 +8,66 @@ PROP_FILE = "Properties/C18.v"
 
 
 # ------------------------------------------------------------------ Coq term printers
-def cs(s):
-    b = s.encode("utf-8")
-    return "[" + ";".join(str(x) for x in b) + "]" if b else "[]"
+# Elaborating big literal terms is what costs time in coqc, so every distinct string, id, resource and
+# query of a shard is defined once and referred to by name.
+class Intern:
+    def __init__(self):
+        self.defs, self.names = [], {}
+
+    def name(self, kind, key, term):
+        k = (kind, key)
+        if k not in self.names:
+            n = "%s%d" % (kind, len(self.names))
+            self.names[k] = n
+            self.defs.append("Definition %s := %s." % (n, term))
+        return self.names[k]
+
+    def s(self, x):
+        b = x.encode("utf-8")
+        return self.name("s", x, ("[" + ";".join(str(c) for c in b) + "]%N") if b else "(@nil N)")
+
+    def id(self, i):
+        key = (i["G"], i["K"], i["P"], i["N"], i["Nm"])
+        return self.name("k", key, "K %s %s %s %s %s" % tuple(self.s(x) for x in key))
+
+    def res(self, r):
+        own, okey = "None", None
+        if r.get("own"):
+            okey = (tuple(r["own"]["id"][f] for f in ("G", "K", "P", "N", "Nm")), r["own"]["uid"])
+            own = "(Some (%s, %s))" % (self.id(r["own"]["id"]), self.s(r["own"]["uid"]))
+        i = r["id"]
+        key = (tuple(i[f] for f in ("G", "K", "P", "N", "Nm")), r["gv"], r["uid"], r["ver"], r["data"], okey)
+        return self.name("r", key, "Res %s %s %s %s %d %s" % (self.id(i), self.s(r["gv"]), self.s(r["uid"]), cver(r["ver"]), r["data"], own))
+
+    def q(self, q):
+        key = (q["G"], q["K"], q["P"], q["N"], q["Pre"])
+        return self.name("q", key, "Q %s %s %s %s %s" % tuple(self.s(x) for x in key))
+
+    def rlist(self, l):
+        key = tuple(self.res(r) for r in (l or []))
+        return self.name("l", key, "[%s]" % "; ".join(key) if key else "(@nil resource)")
 
 
 def cver(v):
     return str(int(v)) if v != "" else "0"
 
 
-def cid(i):
-    return "(K %s %s %s %s %s)" % (cs(i["G"]), cs(i["K"]), cs(i["P"]), cs(i["N"]), cs(i["Nm"]))
-
-
-def cres(r):
-    own = "None"
-    if r.get("own"):
-        own = "(Some (%s, %s))" % (cid(r["own"]["id"]), cs(r["own"]["uid"]))
-    i = r["id"]
-    return "(R %s %s %s %s %s %s %s %s %d %s)" % (cs(i["G"]), cs(i["K"]), cs(i["P"]), cs(i["N"]), cs(i["Nm"]),
-                                                  cs(r["gv"]), cs(r["uid"]), cver(r["ver"]), r["data"], own)
-
-
-def cq(q):
-    return "(Q %s %s %s %s %s)" % (cs(q["G"]), cs(q["K"]), cs(q["P"]), cs(q["N"]), cs(q["Pre"]))
-
-
-def cop(o):
+def cop(o, I):
     t = o["t"]
     if t == "write":
-        return "OWrite %s" % cres(o["res"])
+        return "OWrite %s" % I.res(o["res"])
     if t == "writes":
-        return "OWriteS %s %s" % (cres(o["res"]), cver(o.get("vsn", "")))
+        return "OWriteS %s %s" % (I.res(o["res"]), cver(o.get("vsn", "")))
     if t == "delete":
-        return "ODelete %s %s %s" % (cid(o["id"]), cs(o.get("uid", "")), cver(o.get("vsn", "")))
+        return "ODelete %s %s %s" % (I.id(o["id"]), I.s(o.get("uid", "")), cver(o.get("vsn", "")))
     if t == "read":
-        return "ORead %s %s %s" % (cid(o["id"]), cs(o.get("gv", "")), cs(o.get("uid", "")))
+        return "ORead %s %s %s" % (I.id(o["id"]), I.s(o.get("gv", "")), I.s(o.get("uid", "")))
     if t == "list":
-        return "OList %s" % cq(o["q"])
+        return "OList %s" % I.q(o["q"])
     if t == "listowner":
-        return "OListByOwner %s %s" % (cid(o["id"]), cs(o.get("uid", "")))
+        return "OListByOwner %s %s" % (I.id(o["id"]), I.s(o.get("uid", "")))
     if t == "watch":
-        return "OWatch %s" % cq(o["q"])
+        return "OWatch %s" % I.q(o["q"])
     if t == "next":
         return "ONext %d" % o.get("w", 0)
     if t == "close":
@@ -57,33 +75,33 @@ def cop(o):
     if t == "publish":
         return "OPublish"
     if t == "restore":
-        return "ORestore %s" % coq_list([cres(r) for r in (o.get("list") or [])])
+        return "ORestore %s" % I.rlist(o.get("list"))
     if t == "snapshot":
         return "OSnapshot"
     if t == "evict":
-        return "OEvict %s" % cq(o["q"])
+        return "OEvict %s" % I.q(o["q"])
     raise ValueError(t)
 
 
 ERR = {"notfound": "ENotFound", "cas": "ECAS", "wronguid": "EWrongUid", "watchclosed": "EWatchClosed", "other": "EOther"}
 
 
-def cout(o):
+def cout(o, I):
     t = o["t"]
     if t == "ok":
         return "OutOk"
     if t == "res":
-        return "OutRes %s" % cres(o["res"])
+        return "OutRes %s" % I.res(o["res"])
     if t == "list":
-        return "OutList %s" % coq_list([cres(r) for r in (o.get("list") or [])])
+        return "OutList %s" % I.rlist(o.get("list"))
     if t == "err":
         return "OutErr %s" % ERR[o["err"]]
     if t == "gvm":
-        return "OutGVM %s" % cres(o["res"])
+        return "OutGVM %s" % I.res(o["res"])
     if t == "event":
         if o["ev"] == "eos":
             return "OutEvent EndOfSnapshot"
-        return "OutEvent (%s %s)" % ("Upsert" if o["ev"] == "upsert" else "Delete", cres(o["res"]))
+        return "OutEvent (%s %s)" % ("Upsert" if o["ev"] == "upsert" else "Delete", I.res(o["res"]))
     if t == "noevent":
         return "OutNoEvent"
     if t == "watch":
@@ -93,12 +111,174 @@ def cout(o):
     raise ValueError(t)
 
 
-def case_to_coq(c):
-    return "Case %s" % coq_list(["(%s, %s)" % (cop(s["op"]), cout(s["out"])) for s in c["steps"]])
+def case_to_coq(c, I):
+    return "Case [%s]" % "; ".join("(%s, %s)" % (cop(s["op"], I), cout(s["out"], I)) for s in c["steps"])
 
 
 def shard_text(cases):
-    body = ";\n  ".join(case_to_coq(c) for c in cases)
+    I = Intern()
+    body = ["Definition c%d : case := %s." % (n, case_to_coq(c, I)) for n, c in enumerate(cases)]
     return ("From Verif Require Import Base.Prelude Resource.Model Run.C18.\nLocal Open Scope N_scope.\n"
-            "Definition cases : list case := [\n  %s\n].\n"
-            "Definition M := Eval vm_compute in mismatches cases.\nPrint M.\n" % body)
+            + "\n".join(I.defs) + "\n" + "\n".join(body) + "\n"
+            + "Definition cases : list case := [%s].\n" % "; ".join("c%d" % n for n in range(len(cases)))
+            + "Definition M := Eval vm_compute in mismatches cases.\nPrint M.\n")
+
+
+# ------------------------------------------------------------------ the check
+KNOWN_CLASS = "watch-after-restore-residue"
+
+
+def first_bad_steps(ctx, cases):
+    """index of the first disagreeing step of each mismatching case (evaluated in Coq)"""
+    I = Intern()
+    body = ["Definition c%d : case := %s." % (n, case_to_coq(c, I)) for n, c in enumerate(cases)]
+    txt = ("From Verif Require Import Base.Prelude Resource.Model Run.C18.\nLocal Open Scope N_scope.\n"
+           + "\n".join(I.defs) + "\n" + "\n".join(body) + "\n"
+           + "Definition M := Eval vm_compute in map (fun c => match first_bad init (c_steps c) 0 with Some n => n | None => 999999 end) [%s].\nPrint M.\n"
+           % "; ".join("c%d" % n for n in range(len(cases))))
+    res = vlib.coq_run_shards(PROP + "fb", [txt])
+    ok, idx, raw = res[0]
+    return idx if ok else []
+
+
+def shrink(binp, ctx, c, n):
+    p = os.path.join(ctx.workdir, "fail_%d.json" % n)
+    json.dump(c, open(p, "w"))
+    rc, o = vlib.sh([binp, "-shrink", p], timeout=600)
+    try:
+        return json.loads(o)
+    except Exception:
+        return c
+
+
+def run(ctx):
+    info, ok = vlib.proof_stage(ctx, PROP_FILE, ["Run/C18.v"])
+    cov = dict(info)
+    cov["trusted_base"] = vlib.STD_TRUSTED + [
+        "modelled, not verified: atomicity of one write/delete/subscribe/publish step (eventLock, the memdb write transaction, EventPublisher.lock) - exercised by the concurrent histories under the race detector, whose witness linearizations are replayed through the model; go-memdb/iradix; the Go scheduler and memory model",
+        "modelled, not verified: field strings contain no NUL byte (indexSeparator), so radix keys / subject strings are injective and ordered field by field; version strings are decimal counters (both backends produce them); publishCh capacity (64) is not modelled (the generator never lets more than 60 batches queue)",
+        "verification hooks (build tag verif, add-only): EventPublisher.VerifResPublishOne = one iteration of Run; VerifResEvictSnapshot = the snapshot-cache TTL timer; a context whose Done() is decided by VerifResSubHasNext makes Watch.Next non-blocking",
+        "the CAS theorem is about the sequential backend model (version = counter+1); the concurrent runs tie the real stores to it through a witness linearization built from the commit order a wildcard watch observes, real-time order checked in Go",
+        "gRPC resource service above the backend (write.go/delete.go retry loop) is not modelled",
+    ]
+    assumptions = ["atomic steps justified by the locks in the code", "NUL-free field strings, decimal versions"]
+    if not ok:
+        cov.update({"evaluations": 0, "distinct_nontrivial": 0, "rule": "proof stage failed", "samples": []})
+        return ctx.finish(cov, assumptions)
+
+    binp = vlib.go_build("resource", race=True)
+    out = os.path.join(ctx.workdir, "cases.jsonl")
+    env = dict(os.environ, GORACE="halt_on_error=1 exitcode=66")
+    rc, o = vlib.sh([binp, "-seed", str(ctx.seed), "-tier", ctx.tier, "-out", out], timeout=6000, env=env)
+    if rc != 0:
+        if "DATA RACE" in o:
+            ctx.violation({"kind": "data-race", "log": o[-4000:],
+                           "what": "the race detector fired while N goroutines used the store: a write is not atomic"})
+            cov.update({"evaluations": 0, "distinct_nontrivial": 0, "rule": "race detector", "samples": []})
+            return ctx.finish(cov, assumptions)
+        raise vlib.BuildError("harness run failed: " + o[-3000:])
+
+    cases = [json.loads(l) for l in open(out)]
+    modes = collections.Counter(c["mode"] for c in cases)
+    opmix, outmix = collections.Counter(), collections.Counter()
+    steps = 0
+    distinct = set()
+    for c in cases:
+        st = c.get("stats") or {}
+        for k, v in st.items():
+            if k.startswith("op_"):
+                opmix[k[3:]] += v
+            elif k.startswith("out_"):
+                outmix[k[4:]] += v
+        n = len(c.get("steps") or [])
+        steps += n
+        if n and (st.get("out_res", 0) + st.get("out_ok", 0) > 0):
+            distinct.add(hash(json.dumps([s["op"] for s in c["steps"]], sort_keys=True)))
+
+    # ---- model vs implementation, inside Coq ----
+    coq_cases = [c for c in cases if c.get("steps")]
+    per = 250
+    shards = [coq_cases[i:i + per] for i in range(0, len(coq_cases), per)]
+    res = vlib.coq_run_shards(PROP, [shard_text(s) for s in shards], jobs=6, timeout=1800)
+    mism = []
+    for s, (okk, idx, raw) in zip(shards, res):
+        if not okk:
+            ctx.violation({"kind": "case-file-failed", "log": raw}, found_input=False)
+            continue
+        mism += [s[i] for i in idx]
+
+    # ---- direct oracle on the implementation ----
+    oracle_fail = [c for c in cases if c.get("oracle")]
+    new_fail, known_n = [], 0
+    for c in oracle_fail:
+        f = vlib.match_known(PROP, c.get("sig") or {})
+        if f:
+            known_n += 1
+            ctx.known(f, f["what"])
+        else:
+            new_fail.append(c)
+    kinds = collections.Counter((c.get("sig") or {}).get("kind", "?") for c in new_fail)
+    seen = set()
+    for n, c in enumerate(new_fail):
+        k = (c.get("sig") or {}).get("kind")
+        if k in seen or len(seen) >= 4:
+            continue
+        seen.add(k)
+        sc = shrink(binp, ctx, c, n) if c["mode"].startswith("sched") or c["mode"].startswith("conc") and c.get("steps") else c
+        ctx.violation({"kind": "oracle", "reason": sc.get("oracle") or c["oracle"], "signature": sc.get("sig") or c.get("sig"),
+                       "mode": c["mode"], "seed": c.get("seed"), "case": sc, "failing_cases_of_this_kind": kinds[k],
+                       "replay_cmd": "build/bin/resource-race -replay <this file>"})
+
+    extra_note = None
+    if mism and not new_fail:
+        # correspondence broken, oracle silent: search harder with the oracle alone (10x schedules, other seed)
+        out2 = os.path.join(ctx.workdir, "search.jsonl")
+        n_more = 10 * modes.get("sched", 1000)
+        vlib.sh([binp, "-seed", str(ctx.seed + 7919), "-tier", ctx.tier, "-out", out2, "-nsched", str(n_more), "-nconc", "200", "-nraft", "0"],
+                timeout=6000, env=env)
+        found = None
+        if os.path.exists(out2):
+            for l in open(out2):
+                c = json.loads(l)
+                if c.get("oracle") and not vlib.match_known(PROP, c.get("sig") or {}):
+                    found = c
+                    break
+        if found:
+            sc = shrink(binp, ctx, found, 99)
+            ctx.violation({"kind": "oracle", "reason": sc.get("oracle") or found["oracle"], "signature": sc.get("sig") or found.get("sig"),
+                           "mode": found["mode"], "case": sc, "found_by": "extended search after a correspondence mismatch",
+                           "replay_cmd": "build/bin/resource-race -replay <this file>"})
+        else:
+            bad = mism[:3]
+            fb = first_bad_steps(ctx, bad)
+            c = bad[0]
+            k = fb[0] if fb else None
+            ctx.violation({"kind": "correspondence", "theorem": "Run.C18.check (model step = implementation, every output of the schedule)",
+                           "mismatching_cases": len(mism), "first_disagreeing_step": k,
+                           "step": c["steps"][k] if k is not None and k < len(c["steps"]) else None,
+                           "case": c, "extended_search_cases": n_more,
+                           "replay_cmd": "build/bin/resource-race -replay <this file>"}, found_input=False)
+            extra_note = "correspondence mismatch, no failing input in %d further schedules" % n_more
+
+    cov.update({
+        "evaluations": len(cases),
+        "steps_compared": steps,
+        "distinct_nontrivial": len(distinct),
+        "rule": "one evaluation = one schedule (scheduled mode: 15-200 generated steps + drain; concurrent mode: the witness linearization of one history of 2-6 goroutines) whose every output was compared with the model inside Coq; distinct_nontrivial = distinct op sequences containing at least one successful write or delete",
+        "traces_validated_against_impl": len(coq_cases),
+        "model_mismatches": len(mism),
+        "oracle_failures": len(oracle_fail),
+        "oracle_failures_known": known_n,
+        "oracle_failures_unknown": len(new_fail),
+        "modes": dict(modes),
+        "op_mix": dict(opmix),
+        "output_mix": dict(outmix),
+        "cases_with_restore": sum(1 for c in cases if (c.get("stats") or {}).get("restores", 0) > 0),
+        "race_detector": "harness built with -race, GORACE=halt_on_error=1: no report",
+        "samples": [{"mode": c["mode"], "seed": c.get("seed"), "steps": len(c["steps"]), "first_steps": c["steps"][:4], "oracle": c.get("oracle", "")}
+                    for c in (coq_cases[:2] + coq_cases[len(coq_cases) // 2:len(coq_cases) // 2 + 1] + coq_cases[-2:])],
+        "exhaustive": False,
+    })
+    if extra_note:
+        cov["note"] = extra_note
+    return ctx.finish(cov, assumptions)
